@@ -248,6 +248,11 @@ func (d *Descriptor) readAsMapEntry(out Outputter, data []byte) (n int, err erro
 		return
 	}
 
+	// The key and the value are omitted from the data when they are zero, but
+	// a JSON object member needs both
+	key, value := &d.Elements[0], &d.Elements[1]
+	var haveKey, haveValue bool
+
 	l := len(data)
 
 	var offset int
@@ -292,6 +297,18 @@ func (d *Descriptor) readAsMapEntry(out Outputter, data []byte) (n int, err erro
 			fl = int(v) + offset
 		}
 
+		if elt == value && !haveKey {
+			if err := key.readMissing(out); err != nil {
+				return 0, err
+			}
+			haveKey = true
+		}
+		if elt == key {
+			haveKey = true
+		} else if elt == value {
+			haveValue = true
+		}
+
 		n, err := elt.read(out, data[offset:fl])
 		if err != nil {
 			return 0, fmt.Errorf("failed reading field %d(%s) of %s. %w", index, elt.Name, d.Name, err)
@@ -299,7 +316,29 @@ func (d *Descriptor) readAsMapEntry(out Outputter, data []byte) (n int, err erro
 		offset += n
 	}
 
+	if !haveKey {
+		if err := key.readMissing(out); err != nil {
+			return 0, err
+		}
+	}
+	if !haveValue {
+		if err := value.readMissing(out); err != nil {
+			return 0, err
+		}
+	}
+
 	return offset, nil
+}
+
+// readMissing outputs the value of a field that was omitted from the data: null
+// if the field has explicit presence, and the zero value otherwise
+func (d *Descriptor) readMissing(out Outputter) error {
+	if d.ExplicitPresence {
+		out.Raw("null")
+		return nil
+	}
+	_, err := d.read(out, nil)
+	return err
 }
 
 func (d *Descriptor) readAsStruct(out Outputter, data []byte) (n int, err error) {
